@@ -175,3 +175,28 @@ pub use crate::svg::{SvgArc, SvgParseError};
 pub use crate::translate_scale::TranslateScale;
 pub use crate::triangle::{Triangle, TrianglePathIter};
 pub use crate::vec2::Vec2;
+
+/// Verification hooks (only with `--cfg kurbo_verif`): a global work counter ticked at the
+/// heads of the loops and recursions whose termination is not structurally obvious.
+#[cfg(kurbo_verif)]
+#[allow(missing_docs)]
+pub mod verif {
+    pub use crate::arc::{verif_rotate_pt, verif_sample_ellipse};
+    pub use crate::ellipse::{
+        verif_agm_elliptic_perimeter, verif_kummer_elliptic_perimeter,
+        verif_kummer_elliptic_perimeter_range,
+    };
+    pub use crate::quadbez::{verif_approx_parabola_integral, verif_approx_parabola_inv_integral};
+    use core::sync::atomic::{AtomicU64, Ordering};
+    static WORK: AtomicU64 = AtomicU64::new(0);
+    #[inline]
+    pub fn tick() {
+        WORK.fetch_add(1, Ordering::Relaxed);
+    }
+    pub fn reset() {
+        WORK.store(0, Ordering::Relaxed);
+    }
+    pub fn work() -> u64 {
+        WORK.load(Ordering::Relaxed)
+    }
+}
